@@ -2,12 +2,23 @@
 
 package layer4
 
-// VerifHook, when set, is called at the linearization points marked with verifEv.
+import "sync/atomic"
+
+// verifHook, when set, is called at the linearization points marked with verifEv.
 // It may block: a blocking hook acts as a scheduler gate for the calling goroutine.
-var VerifHook func(point string, obj any)
+var verifHook atomic.Pointer[func(point string, obj any)]
+
+// SetVerifHook installs (or, with nil, removes) the hook.
+func SetVerifHook(f func(point string, obj any)) {
+	if f == nil {
+		verifHook.Store(nil)
+		return
+	}
+	verifHook.Store(&f)
+}
 
 func verifEv(point string, obj any) {
-	if h := VerifHook; h != nil {
-		h(point, obj)
+	if h := verifHook.Load(); h != nil {
+		(*h)(point, obj)
 	}
 }
